@@ -64,8 +64,25 @@ def expr_may_raise(node):
     if node is None:
         return False
     for n in ast.walk(node):
+        if isinstance(n, ast.Call) and isinstance(n.func, ast.Name) and n.func.id in _TOTAL_BUILTINS:
+            if any(expr_may_raise(a) for a in n.args):
+                return True
+            continue
         if isinstance(n, _RAISING):
-            return True
+            if isinstance(n, ast.Call) or not _inside_total_call(node, n):
+                return True
+    return False
+
+
+_TOTAL_BUILTINS = {"hasattr", "isinstance", "callable", "id"}
+
+
+def _inside_total_call(root, target):
+    """target occurs only as (part of) an argument of a total builtin call."""
+    for n in ast.walk(root):
+        if isinstance(n, ast.Call) and isinstance(n.func, ast.Name) and n.func.id in _TOTAL_BUILTINS:
+            if any(target is x for a in n.args for x in ast.walk(a)):
+                return True
     return False
 
 
